@@ -81,3 +81,55 @@ def monotone_ok(sc, compiler) -> bool:
             if np.iscomplexobj(w) or (w < 0).any():
                 return False
     return True
+
+
+def check_expected(res: Result, cc_, X, expected, scale, semiring: str, tag: str, tol="exact", vclass="value-mismatch", **extra) -> bool:
+    """Evaluate a compiled circuit and compare with an expected linear-space array."""
+    out = call(evaluate, cc_, X)
+    if not out.ok:
+        exc_violation(res, out, f"evaluating [{tag}]")
+        return False
+    got = out.value
+    if got.shape != np.asarray(expected).shape:
+        res.violate("output-shape", f"[{tag}] output shape {got.shape}, expected {np.asarray(expected).shape}")
+        return False
+    ok, idx, msg = compare_semiring(got, expected, scale, semiring, tol)
+    res.count("values_compared", int(np.prod(got.shape)))
+    if not ok:
+        res.violate(vclass, f"[{tag}] at {idx}: {msg}", **extra)
+        return False
+    return True
+
+
+def compile_in(res: Result, comp, sc, what: str):
+    out = call(comp.compile, sc)
+    if not out.ok:
+        exc_violation(res, out, f"compile {what}")
+        return None
+    return out.value
+
+
+def build_or_refuse(res: Result, fn):
+    """Run a workload-construction step that calls real operators: a MonitorViolation (contract /
+    shape hook) is a violation, any other exception is a recorded refusal."""
+    from vf.monitors import MonitorViolation
+
+    o = call(fn)
+    if o.ok:
+        return o.value
+    if isinstance(o.exc, MonitorViolation):
+        exc_violation(res, o, "building the workload")
+    else:
+        res.status = "refused"
+        res.note = f"{o.exc_type}: {str(o.exc)[:200]} @ {o.where()}"
+        res.features.add("refused:" + o.exc_type)
+    return None
+
+
+def input_pool(nrng, domains: dict, n_random: int = 7, limit: int = 128):
+    from vf import gen
+
+    pool = gen.all_assignments(domains, limit=limit)
+    if pool is None:
+        pool = gen.random_inputs(nrng, domains, n_random)
+    return pool
